@@ -341,7 +341,8 @@ pub fn check(s: &'static dyn Proto, c: &Case, st: &mut Stats, _k: &KnownFindings
             ensure_eq!(s1.all, a1.all, "{}: outputs differ although the {consumed} consumed bytes are identical (split at {n})", OPS[op]);
             st.label("split:after-all-draws");
         } else {
-            ensure!(s1.all != a1.all, "{}: outputs identical although the consumed tape bytes differ (split at byte {n} of {consumed})", OPS[op]);
+            // no claim about the outputs as a whole here: an implementation may draw bytes it does
+            // not use (rejected samples, larger blocks); the claims are per located value, below
             for (oa, os) in a1.outs.iter().zip(s1.outs.iter()) {
                 if oa.w == W::FakeMaskingKey {
                     // the masked response is a function of two draws (masking key and masking nonce)
@@ -453,7 +454,7 @@ pub const BUDGET: Budget = Budget {
 pub fn run(cfg: &RunCfg) -> (Outcome, EvidenceExtra) {
     let out = run_property(cfg, "C17", crate::suites::suites20(), BUDGET, strategy, check);
     let ev = EvidenceExtra {
-        rule: "case = inputs plus a pair of independent tapes (a, b) and a split position; for each of the six randomised operations (ServerSetup::new, ClientRegistration::start/finish, ClientLogin::start, ServerLogin::start with and without record): (determinism) two runs on tape a and a third in a fresh thread give byte-identical outputs, states and tape consumption; (freshness) every random value (OPRF blind at registration and login, envelope nonce, masking nonce, client/server nonce, client/server ephemeral keys, OPRF seed, static and fake key pairs, the fake-record masked response) differs between tapes a and b, all of them are pairwise distinct within a run, the part of the tape an RFC-defined value is taken from is located (nonces/seed as verbatim tape bytes, key pairs = DeriveDiffieHellmanKeyPair(tape bytes), fake masking key = the bytes whose pad reproduces the masked response, which differ across attempts) - locating it is not itself required by this property; (prefix tapes) on the tape a[..n] ++ b the outputs are identical when all consumed bytes lie before n, otherwise they differ, values whose witness draw lies before n are unchanged and values whose draw starts at or after n change; (stuck-then-recovering RNG) on two tapes whose first 1-2 draws are all-zero and which then continue independently, KeGroup::random_sk (ristretto255/NIST) and the registration request still differ; (failing RNG) for every call index k the operation makes, an RNG that fails at call k (try_fill_bytes error / fill_bytes panic) makes the operation propagate that failure or return an error, or, if it returns Ok, every value that is taken from the tape in the fault-free run is still taken from successfully drawn bytes. evaluation = one relation; every case uses non-identical tape pairs; distinct by hash".into(),
+        rule: "case = inputs plus a pair of independent tapes (a, b) and a split position; for each of the six randomised operations (ServerSetup::new, ClientRegistration::start/finish, ClientLogin::start, ServerLogin::start with and without record): (determinism) two runs on tape a and a third in a fresh thread give byte-identical outputs, states and tape consumption; (freshness) every random value (OPRF blind at registration and login, envelope nonce, masking nonce, client/server nonce, client/server ephemeral keys, OPRF seed, static and fake key pairs, the fake-record masked response) differs between tapes a and b, all of them are pairwise distinct within a run, the part of the tape an RFC-defined value is taken from is located (nonces/seed as verbatim tape bytes, key pairs = DeriveDiffieHellmanKeyPair(tape bytes), fake masking key = the bytes whose pad reproduces the masked response, which differ across attempts) - locating it is not itself required by this property; (prefix tapes) on the tape a[..n] ++ b the outputs are identical when the consumed bytes are identical; values located on the tape before n are unchanged and values located at or after n change (no claim is made about bytes an implementation draws but does not use); (stuck-then-recovering RNG) on two tapes whose first 1-2 draws are all-zero and which then continue independently, KeGroup::random_sk (ristretto255/NIST) and the registration request still differ; (failing RNG) for every call index k the operation makes, an RNG that fails at call k (try_fill_bytes error / fill_bytes panic) makes the operation propagate that failure or return an error, or, if it returns Ok, every value that is taken from the tape in the fault-free run is still taken from successfully drawn bytes. evaluation = one relation; every case uses non-identical tape pairs; distinct by hash".into(),
         assumptions: vec!["the OPRF blind is checked metamorphically only (RFC 9497 does not fix the sampling method)".into(),
             "32-byte collisions between independent tapes do not occur".into()],
         exhaustive: None,
